@@ -511,6 +511,15 @@ def native(gname, case, v):
                 new = v.get("new") or []
                 # same relation between old and new as in the counterexample: longer / shorter / different
                 pre = want + b"// stale tail\n" if len(old) > len(new) else (want[:-3] if len(old) < len(new) else bytes((c ^ 1) if i == len(want) - 2 else c for i, c in enumerate(want)))
+                if len(old) == len(new) and sorted(old) == sorted(new) and old != new:
+                    # the counterexample's old bytes are a rearrangement of the new ones: seed the file with the fresh output's lines in another order
+                    lines = want.split(b"\n")
+                    idx = [i for i, l in enumerate(lines) if l.strip()]
+                    pairs = [(a, b) for a in idx for b in idx if a < b and lines[a] != lines[b]]
+                    if pairs:
+                        a, b = pairs[len(pairs) // 2]
+                        lines[a], lines[b] = lines[b], lines[a]
+                        pre = b"\n".join(lines)
                 open(os.path.join(out, name), "wb").write(pre)
             before = tree(out)
             time.sleep(0.02)
